@@ -400,7 +400,12 @@ pub fn run(ctx: &mut Ctx) -> R {
             2 => *ch.pick("syn.n.common", &[192usize, 256, 64, 32, 128]),
             _ => 17 + ch.draw("syn.n.any", 80) as usize,
         };
-        let number = if ch.draw("syn.bigno", 6) == 5 { 100_000 + k as u64 } else { k as u64 };
+        // frame numbers at the length boundaries of the UTF-8-like coding (1..6 bytes for 31 bits)
+        let number = match ch.draw("syn.bigno", 6) {
+            5 => 100_000 + k as u64,
+            4 => *ch.pick("syn.no", &[127u64, 128, 2047, 2048, 65535, 65536, (1 << 21) - 1, 1 << 21, (1 << 26) - 1, 1 << 26, (1u64 << 31) - 1]),
+            _ => k as u64,
+        };
         let Some(m) = make_frame(&ch, &mut rng, bps, bps_code, assign, channels, n, number) else {
             ctx.eval(0, false);
             return Ok(()); // this draw cannot express the target; not a finding
